@@ -5,7 +5,7 @@ from pvc.zs import *  # noqa
 
 
 def _prove(name, hyps, goal, timeout_ms):
-    s = z3.Solver()
+    s = z3.SimpleSolver()
     s.set("timeout", timeout_ms)
     for a in base_axioms():
         s.add(a)
@@ -45,3 +45,46 @@ def sorted_lemmas(timeout_ms):
     res.append(_prove("lemma.A3.sorted.second_is_min_of_rest", ax + [a2(j), a1(inv[j]), a3(IntVal(1), inv[j])],
                       Implies(And(0 <= j, j < n, j != perm[0]), out[1] <= el[j]), timeout_ms))
     return res
+
+
+def drains(timeout_ms):
+    """C13.drains / C10.drains: if a sweep leaves no mailbox row (nothing was protected), then by the
+    foreign keys (I1) and I7 no side row, nameplate, nameplate side or message is left either."""
+    from pvc.state import State
+    from . import invariants as I
+    S = State.symbolic("L")
+    hyps = [I.I1(S), I.I7(S), I.MB(S).none(lambda r: BoolVal(True))]
+    out = []
+    for name, t in (("mailbox_sides", I.MS(S)), ("nameplates", I.NP(S)), ("nameplate_sides", I.NS(S)), ("messages", I.MSG(S))):
+        out.append(_prove("lemma.C13.drains." + name, hyps, t.none(lambda r: BoolVal(True)), timeout_ms))
+    return out
+
+
+def timing(timeout_ms):
+    """C12/C13 arithmetic over the constants read from server_tap.py (A11: sweeps are P apart; A15)."""
+    from pvc.front import Source
+    k = Source().module_constants("server_tap")
+    E, P = RealVal(k["CHANNEL_EXPIRATION_TIME"]), RealVal(k["EXPIRATION_CHECK_PERIOD"])
+    t, touch, now, upd = Const("t", REAL), Const("touch", REAL), Const("now", REAL), Const("upd", REAL)
+    out = []
+    # activity at t within the expiration time before the sweep at `now`: not old
+    out.append(_prove("lemma.C12.alive", [t > now - E], Not(t <= now - E), timeout_ms))
+    # a client subscribed until t was touched by a sweep later than t-P (or acted at t); every sweep up to
+    # t + (E-P) then still finds its mailbox newer than old = now-E: it may be away for E-P
+    out.append(_prove("lemma.C12.away", [touch > t - P, now <= t + (E - P)], touch > now - E, timeout_ms))
+    out.append(_prove("lemma.C12.away_is_positive", [], E - P > 0, timeout_ms))
+    # no activity and no subscriber after t: updated <= t; the first sweep at or after t+E sees it as old,
+    # and with sweeps P apart that sweep comes before t+E+P
+    out.append(_prove("lemma.C13.when", [upd <= t, now >= t + E], upd <= now - E, timeout_ms))
+    return out
+
+
+def distinct_mailboxes(timeout_ms):
+    """C03.distinct: different live nameplates (any apps, any names) point at different mailboxes (I6)"""
+    from pvc.state import State
+    from . import invariants as I
+    S = State.symbolic("L")
+    np_ = I.NP(S)
+    a, b = Const("n1", INT), Const("n2", INT)
+    return [_prove("lemma.C03.distinct", [I.I6(S), np_.live[a], np_.live[b], a != b],
+                   np_.cols["mailbox_id"][a] != np_.cols["mailbox_id"][b], timeout_ms)]
